@@ -441,7 +441,26 @@ CHECKS = {
              driver=['preflight-table', '-n', '1500' if tier == 'quick' else '0', '-seed', str(seed)])]),
 }
 
+TV = 'TLC trace validation: every API call of the real controllers (built from /repo, run under a deterministic scheduler against an in-memory API server) is one event; spec/TraceObs.tla rebuilds the store and per-pass observations and its invariants are evaluated on every state'
+TECHNIQUES = {
+    'C07': 'TLA+ model-based: exhaustive TLC check of the revision-layer design model spec/PKODeploy.tla (ObjectDeployment controller per API call, with and without cache lag; design-level reproduction of the known finding as negative control); ' + TV,
+    'C08': 'TLA+ model-based: exhaustive TLC check of the revision-layer design model spec/PKODeploy.tla (archive / prune decisions per API call); ' + TV,
+    'C10': 'TLA+ model-based fault enumeration: a staged scenario is run once undisturbed and once per API-call index x disturbance kind on the real controllers; TLC (spec/TraceObs.tla) tracks the store from the events and compares its end state with the reference digest',
+    'C11': 'TLA+ model-based: preflight decision table (classes x owner kinds x rollout/teardown) run through the real controllers; ' + TV + ' with the row classes as independent oracle',
+    'C12': 'TLA+ model-based: exhaustive TLC check of the reference model spec/DynCache.tla (intended + as-found variants as negative controls); enumerated and random operation sequences and concurrent stress on the real dynamiccache.Cache validated by TLC against the model (spec/TraceDynCache.tla: state and result equality after every call)',
+    'C13': 'TLA+ model-based: rendering specified as a pure function (spec/Render.tla); abstract packages concretised and rendered repeatedly by the real pipeline; TLC (spec/TraceRender.tla) compares every outcome with Expected(p)',
+    'C14': 'TLA+ model-based: exhaustive TLC check of spec/PKODeploy.tla (deployer with slices and slice GC; design-level reproduction of the known GC race as negative control); differential sliced-vs-inline runs and package update histories on the real controllers; ' + TV,
+    'C15': 'TLA+ model-based: differential delegated-vs-local runs and seeded schedules of the real ObjectSet / ObjectSetPhase controllers; ' + TV + ' (C01-C06, C09 invariants on delegated scenarios)',
+    'C16': 'TLA+ model-based: seeded histories of Package edits, faults and conflicts on the real Package controller + deployer; ' + TV + ' (reference render = the same pipeline called directly)',
+    'C17': 'TLA+ model-based: probing specified as a function of abstract (probe list, object) rows (spec/Probing.tla); rows concretised and run through the real parser and probes; TLC (spec/TraceProbing.tla) compares verdict and messages',
+    'C18': 'TLA+ model-based: seeded histories on the real ObjectTemplate controller with reconciles triggered through the real EnqueueWatchingObjects handler and RequeueAfter timers; ' + TV,
+    'C19': 'TLA+ model-based (reduced scope): the domain of input shape classes is declared in spec/Shapes.tla; every row is run through its real entry point (recover + watchdog, recursion rows in child processes); TLC (spec/TraceShapes.tla) checks no row panics / hangs and the domain is covered',
+    'C20': 'TLA+ model-based: exhaustive TLC check of spec/ReqMgr.tla at critical-section granularity incl. liveness (no lost wake-up) under fairness; enumerated and random scripts (arrivals, completions, failures, cancellation) and free-running stress on the real RequestManager validated by TLC (spec/TraceReqMgr.tla)',
+}
+
 for _pid, _cd in CHECKS.items():
+    if _pid in TECHNIQUES:
+        _cd.setdefault('technique', TECHNIQUES[_pid])
     _cd.setdefault('level_text', LEVEL_TEXT)
     _cd.setdefault('level_note', LEVEL_NOTE)
     _cd.setdefault('technique', TECH)
